@@ -122,6 +122,17 @@ _inl = {}
 SKELETON_VOCABULARY = ("take_while", "satisfy", "optional", "tag")
 
 
+_qt = {}
+
+
+def queue_types(crate):
+    """Self types of the library's impls of its ErrorQueue trait."""
+    key = id(crate)
+    if key not in _qt:
+        _qt[key] = {b.get("self_ty") for b in crate.facts["bodies"] if (b.get("trait") or "").endswith("::error_queue::ErrorQueue") and b.get("self_ty")}
+    return _qt[key]
+
+
 def inline_helpers(crate):
     """Private local helper functions that pathsum evaluates in place at their call sites (so that extracting a step into a
     helper does not hide it from the rules): non-public free functions and inherent methods of the library, except
@@ -148,12 +159,16 @@ def inline_helpers(crate):
             continue
         if not private_trait_impl and not d.startswith(crate.name + "::") and not d.startswith("<" + crate.name + "::"):
             continue
+        ptys = [p.get("ty", "") for p in b["params"]]
         if "Public" in (b.get("vis") or "Public"):
-            continue
+            # public API is addressed by name - except the read-only accessors of the error queue's own type (`is_full(&self)`,
+            # `capacity(&self)` ...): where the queue's trait methods call one, it is evaluated in place like a private helper
+            sty = b.get("self_ty") or ""
+            if not (not b.get("trait") and queue_types(crate) and sty in queue_types(crate) and len(ptys) == 1 and ptys[0] == "&" + sty):
+                continue
         if d in curried_roles(crate):
             continue
         ret = b.get("ret", "")
-        ptys = [p.get("ty", "") for p in b["params"]]
         if ret.startswith("impl ") and not b.get("is_async"):
             # parser factories: the combinator vocabulary of the skeleton and the factories parametrised by tree nodes or
             # by the argument vector stay nodes of the skeleton; a private factory parametrised by plain data (a quote
